@@ -1796,3 +1796,70 @@ func checkCredentialsOutliveResets(c *report.Ctx) {
 	sort.Strings(who)
 	c.Check("R-WHO", "L/core.credentialsServiceImpl.credentials/made-once", "the credentials table is made by the constructor and replaced by nobody (a reset does not forget the credentials the token stands for)", strings.Join(who, ",") == "L/core.NewCredentialsService", token.NoPos, len(who), "table assigned in: %v", who)
 }
+
+func init() {
+	add := func(id string, fs ...func(*report.Ctx)) { round5Rules[id] = append(round5Rules[id], fs...) }
+	add("C05", checkInvokeWatchdogOutlivesCaller)
+	add("C16", checkRapidUsesEnvironmentThroughItsDoors)
+}
+
+// checkInvokeWatchdogOutlivesCaller (C05): the timeout watchdog of Server.Invoke lives in a context of its own, derived
+// from context.Background(): tied to the caller's request it would be cancelled when the caller hangs up, and a stuck
+// invocation would then never be timed out nor the environment reset.
+func checkInvokeWatchdogOutlivesCaller(c *report.Ctx) {
+	f := fn(c, rapidcP, "(*Server).Invoke")
+	if f == nil {
+		return
+	}
+	n, ok := 0, true
+	pos := fpos(f)
+	for _, call := range an.CallsTo(f, "context.WithCancel", "context.WithTimeout", "context.WithDeadline") {
+		n++
+		cl, _ := an.CallOf(call.Common().Args[0])
+		if cl == nil || an.Callee(cl) != "context.Background" {
+			ok = false
+			pos = an.InstrPos(call)
+		}
+	}
+	c.Check("R-WIRE", an.FuncName(f)+"/watchdog-context-is-its-own", "the context the timeout watchdog runs under is made from context.Background() (not from anything the caller can cancel)", ok && n >= 1, pos, n, "contexts made: %d; each from context.Background(): %v", n, ok)
+}
+
+// checkRapidUsesEnvironmentThroughItsDoors (C16): package rapid touches the environment object through the two stores
+// of the init request and the two exec-environment builders only. Any other setter called from there (a handler taken
+// from the function metadata before an inline init, a platform default taken from the init message) writes a layer
+// behind the precedence rules' back.
+func checkRapidUsesEnvironmentThroughItsDoors(c *report.Ctx) {
+	allowed := map[string]bool{
+		"L/rapidcore/env.Environment.StoreEnvironmentVariablesFromInit":               true,
+		"L/rapidcore/env.Environment.StoreEnvironmentVariablesFromInitForInitCaching": true,
+		"L/rapidcore/env.Environment.RuntimeExecEnv":                                  true,
+		"L/rapidcore/env.Environment.AgentExecEnv":                                    true,
+	}
+	n := 0
+	var bad []string
+	pos := token.NoPos
+	all := append([]*ssa.Function(nil), repoFuncs(c)...)
+	for g := range c.P.Absorbed {
+		all = append(all, g)
+	}
+	sort.Slice(all, func(i, j int) bool { return all[i].String() < all[j].String() })
+	for _, f := range all {
+		top := f
+		for top.Parent() != nil {
+			top = top.Parent()
+		}
+		if top.Pkg == nil || load.Abbrev(top.Pkg.Pkg.Path()) != "L/rapid" {
+			continue
+		}
+		for _, call := range an.Calls(f, func(s string) bool { return strings.HasPrefix(s, "L/rapidcore/env.Environment.") }) {
+			n++
+			if !allowed[an.Callee(call)] {
+				bad = append(bad, an.FuncName(f)+": "+strings.TrimPrefix(an.Callee(call), "L/rapidcore/env.Environment."))
+				if pos == token.NoPos {
+					pos = an.InstrPos(call)
+				}
+			}
+		}
+	}
+	c.Check("R-WHO", "L/rapid/environment-through-its-doors", "package rapid calls the environment's two init stores and two exec-environment builders and no other method of it", len(bad) == 0 && n >= 3, pos, n, "Environment method calls in package rapid: %d; others than the four: %v", n, uniq(bad))
+}
